@@ -153,6 +153,7 @@ func runCheck(args []string) int {
 		}
 	}
 	violations := 0
+	reported := map[string]bool{}
 	var knownHit []string
 	var failedNames []string
 	report := func(obl, why, output string, o *eng.Obl) {
@@ -173,6 +174,11 @@ func runCheck(args []string) int {
 		}
 		violations++
 		failedNames = append(failedNames, obl)
+		// one VIOLATION line (and one replay attempt) per obligation name; further paths of the same obligation are counted only
+		if reported[bn] {
+			return
+		}
+		reported[bn] = true
 		rp, suffix := "", " no-failing-input-found"
 		if o != nil {
 			rp, suffix = tryReplay(e, p, o, replayDir, repo, why, output)
